@@ -383,7 +383,14 @@ func (r *runner) report(p Prog, v verdict, sem bool) {
 // program gets the same key).
 func failKey(p Prog, sem bool) (key string, q Prog, v verdict) {
 	var lits []Lit
+	var nums []string
 	var cpp *Ty
+	// an AST without anything in it is dumped as the empty text: canonical witness = a comment-only file
+	if v0 := checkSrc(p.Render(), sem); v0.Class == "reparse-error" && v0.Dumped == "" {
+		if cv := checkSrc("// empty\n", sem); cv.Class != "" && cv.Class != "gen-reject" {
+			return "idl:// empty", Prog{Defs: []Def{{Kind: "", Cm: "// empty"}}}, cv
+		}
+	}
 	addA := func(a []Ann) {
 		for _, x := range a {
 			lits = append(lits, x.V)
@@ -407,6 +414,9 @@ func failKey(p Prog, sem bool) (key string, q Prog, v verdict) {
 	cvW = func(c CV) {
 		if c.Kind == "lit" {
 			lits = append(lits, c.Lit)
+		}
+		if c.Kind == "num" {
+			nums = append(nums, c.Num)
 		}
 		for _, x := range c.List {
 			cvW(x)
@@ -459,6 +469,12 @@ func failKey(p Prog, sem bool) (key string, q Prog, v verdict) {
 		c := Prog{Defs: []Def{{Kind: "typedef", Name: "a", Ty: Ty{Name: "i32", Anns: []Ann{{"a", l}}}}}}
 		if cv := checkSrc(c.Render(), sem); cv.Class != "" && cv.Class != "gen-reject" {
 			return "type-annotation:" + vl.Hex(litValue(l)), c, cv
+		}
+	}
+	for _, n := range nums {
+		c := Prog{Defs: []Def{{Kind: "const", Name: "a", Ty: Ty{Name: "i32"}, Val: CV{Kind: "num", Num: n}}}}
+		if cv := checkSrc(c.Render(), sem); cv.Class != "" && cv.Class != "gen-reject" {
+			return "idl:" + strings.TrimSpace(c.Render()), c, cv
 		}
 	}
 	if cpp != nil {
